@@ -425,4 +425,53 @@ example : schemaDiffSkip [.addColumn, .dropTable]
     [{ name := 1, cols := [⟨1, [0]⟩, ⟨2, [0]⟩], idxs := [⟨some 1, false, false, [⟨1, false, 0⟩], 0⟩] }] =
     [.modifyTable 1 [.addIndex ⟨some 1, false, false, [⟨1, false, 0⟩], 0⟩]] := by decide
 
+section SkipIdem
+open Atlas.Diff
+
+theorem skipT_idem (sk : List Kind) (cs : List TChange) : skipT sk (skipT sk cs) = skipT sk cs := by
+  simp [skipT, List.filter_filter]
+
+theorem skipC_idem (sk : List Kind) (c c' : Change) (h : skipC sk c = some c') : skipC sk c' = some c' := by
+  cases c with
+  | modifyTable n subs =>
+    simp only [skipC] at h
+    split at h
+    · cases h
+    · rename_i hne
+      cases h
+      simp only [skipC, skipT_idem]
+      rw [if_neg hne]
+  | dropTable n =>
+    simp only [skipC] at h
+    split at h
+    · cases h
+    · cases h; simp only [skipC]; rename_i hne; rw [if_neg hne]
+  | addTable n =>
+    simp only [skipC] at h
+    split at h
+    · cases h
+    · cases h; simp only [skipC]; rename_i hne; rw [if_neg hne]
+
+/-- **skip_idempotent**: filtering an already filtered change list with the same skip list changes nothing
+(what is left holds no skipped kind and no emptied table modification) — change lists of any length and nesting. -/
+theorem skip_idempotent (sk : List Kind) : ∀ (cs : List Change), skipDiff sk (skipDiff sk cs) = skipDiff sk cs := by
+  intro cs
+  unfold skipDiff
+  induction cs with
+  | nil => rfl
+  | cons c cs ih =>
+    rw [List.filterMap_cons]
+    cases hc : skipC sk c with
+    | none => exact ih
+    | some c' =>
+      simp only [List.filterMap_cons, skipC_idem sk c c' hc]
+      rw [ih]
+
+/-- the filtered list never gets longer, and top-level order is kept. -/
+theorem skip_length_le (sk : List Kind) (cs : List Change) : (skipDiff sk cs).length ≤ cs.length := by
+  unfold skipDiff
+  exact List.length_filterMap_le _ _
+
+end SkipIdem
+
 end Props.C19
